@@ -510,3 +510,263 @@ class DiskLayout:
 
 
 LEMMAS.append(DiskLayout())
+
+
+# =============================================================================================== unbounded writer pieces
+
+from pyvc.contracts import Verifier, LoopSpec, CallSpec, Forall, prove_forall
+from pyvc.sym import SymChar, Implies
+
+N = db.IMAGE_SIZE
+
+
+class DiskWriterFns:
+    """
+    Function contracts on the disk writer with the image as a z3 array (all pointers, slots, granule numbers and byte
+    values symbolic; data length symbolic where a loop invariant is given):
+      write_bytes_to_buffer   for all lengths n and pointers p:  A'[p+j] == d[j] (j<n), everything else unchanged, returns p+n
+      write_to_fat            chain links, terminator $C0+s, frame           (chain length k enumerated 1..5, granules symbolic)
+      write_dir_entry         the 32-byte entry layout at any slot, frame    (name / extension lengths enumerated, characters symbolic)
+      MLPreamble / BasicPreamble / Postamble .write / .read   field layout, frame, pointer advance
+    """
+    name = "disk_writer_fns"
+    props = ("C08", "C07", "C13")
+    max_paths = 3000
+
+    def cells(self, tier):
+        out = [{"id": "fn/write_bytes_to_buffer", "fn": "wbtb"}]
+        for k in (1, 2, 3, 5):
+            out.append({"id": "fn/write_to_fat/k%d" % k, "fn": "fat", "k": k, "bounded": None})
+        for nl, el in ((0, 0), (1, 3), (5, 3), (8, 3), (9, 2), (12, 4)):
+            out.append({"id": "fn/write_dir_entry/name%d.ext%d" % (nl, el), "fn": "dir", "nl": nl, "el": el})
+        for cls in ("MLPreamble", "BasicPreamble", "Postamble"):
+            out.append({"id": "fn/%s.write" % cls, "fn": "amble_write", "cls": cls})
+            out.append({"id": "fn/%s.read" % cls, "fn": "amble_read", "cls": cls})
+        return out
+
+    def run(self, env, cell):
+        if env.mode == "native":
+            return self.native(env, cell)
+        getattr(self, "s_" + cell["fn"])(env, cell, Files(env))
+
+    # native counterparts: run the real function on the model's concrete values and check the same post-condition pointwise
+    def native(self, env, cell):
+        F = Files(env)
+        fn = cell["fn"]
+        h = env.holes
+        d = F.new(DSK, "DiskFile")
+        buf = F.get(d, "buffer")
+        base = list(buf)
+        if fn == "wbtb":
+            data = list(h.get("data", []))
+            p0 = h.get("p0", 0)
+            r = F.method(d, "write_bytes_to_buffer", p0, data)
+            ok = r == p0 + len(data) and all(buf[p0 + j] == data[j] for j in range(len(data))) and \
+                all(buf[q] == base[q] for q in range(N) if not p0 <= q < p0 + len(data))
+            env.ensure(KEY + "write_bytes_to_buffer::post", ok, ("C08", "C07"), lambda: "write_bytes_to_buffer:n=%d" % len(data))
+        elif fn == "fat":
+            gs = [h["g%d" % j] for j in range(cell["k"])]
+            s_ = h.get("s", 1)
+            F.method(d, "write_to_fat", list(gs), s_)
+            ok = all(buf[db.FAT_OFFSET + gs[j]] == gs[j + 1] for j in range(len(gs) - 1)) and buf[db.FAT_OFFSET + gs[-1]] == 0xC0 + s_ and \
+                all(buf[q] == base[q] for q in range(N) if q not in [db.FAT_OFFSET + g for g in gs])
+            env.ensure(KEY + "write_to_fat::post", ok, ("C08",), lambda: "write_to_fat:k=%d" % len(gs))
+        else:
+            env.ensure(KEY + "native-replay-not-implemented", True, ())
+
+    # ------------------------------------------------------------------
+    def _disk(self, env, F):
+        d = F.new(DSK, "DiskFile")
+        A0 = z3.Array("A0", z3.IntSort(), z3.IntSort())
+        buf = ArrList(A0, N)
+        F.set(d, "buffer", buf)
+        return d, buf, A0
+
+    def s_wbtb(self, env, cell, F):
+        d, buf, A0 = self._disk(env, F)
+        n = env.hole_int("n", 0, 65535)
+        p0 = env.hole_int("p0", 0, N)
+        env.assume(p0 + n <= N)
+        D = z3.Array("h_dataarr", z3.IntSort(), z3.IntSort())
+        data = ArrList(D, n)
+        env.hole_terms["data"] = ("arr", D, n.e if isinstance(n, SymInt) else z3.IntVal(n))
+        key = KEY + "write_bytes_to_buffer"
+        v = Verifier(env, F.it)
+
+        def init(ctx):
+            return {}
+
+        def havoc(ctx):
+            p = cur()
+            p.fresh += 1
+            buf.arr = z3.Array("A!%d" % p.fresh, z3.IntSort(), z3.IntSort())
+            ctx.locals["pointer"] = SymInt(z3.Int("ptr!%d" % p.fresh))
+            return {}
+
+        def inv(ctx, i, g):
+            A = buf.arr
+            return [("pointer", ctx.locals["pointer"] == p0 + i),
+                    Forall("written", 0, i, lambda q: mk(z3.Select(A, sym._z(p0 + q)) == z3.Select(D, sym._z(q)))),
+                    Forall("frame", 0, N, lambda q: Implies(Or(q < p0, q >= p0 + i), mk(z3.Select(A, sym._z(q)) == z3.Select(A0, sym._z(q)))))]
+
+        def step(ctx, i, g):
+            return {}
+        v.loop(key, 0, LoopSpec(("C08", "C07"), init, havoc, inv, step))
+        with v.installed():
+            try:
+                r = F.method(d, "write_bytes_to_buffer", p0, data)
+            except Raised as e:
+                env.fail(key + "::raises:none-in-range", ("C08", "C13"))
+                return
+        p = cur()
+        A = buf.arr
+        env.ensure(key + "::post:returns-end", r == p0 + n, ("C08", "C07"))
+        facts = v.facts
+        if not branch(n > 0):
+            # zero iterations: nothing was cut; the buffer is untouched
+            env.ensure(key + "::post:frame", mk(A == A0) if not A.eq(A0) else True, ("C08",))
+            env.ensure(key + "::post:written", True, ("C08", "C07"))
+            return
+        prove_forall(env, p, key + "::post:written", Forall("written", 0, n, lambda q: mk(z3.Select(A, sym._z(p0 + q)) == z3.Select(D, sym._z(q)))),
+                     [f for f in facts if f.name == "written"], ("C08", "C07"))
+        prove_forall(env, p, key + "::post:frame", Forall("frame", 0, N, lambda q: Implies(Or(q < p0, q >= p0 + n),
+                     mk(z3.Select(A, sym._z(q)) == z3.Select(A0, sym._z(q))))), [f for f in facts if f.name == "frame"], ("C08",))
+
+    def s_fat(self, env, cell, F):
+        k = cell["k"]
+        d, buf, A0 = self._disk(env, F)
+        gs = [env.hole_int("g%d" % j, 0, 67) for j in range(k)]
+        for a in range(k):
+            for b in range(a + 1, k):
+                env.assume(gs[a] != gs[b])
+        s_ = env.hole_int("s", 0, 9)
+        key = KEY + "write_to_fat"
+        try:
+            F.method(d, "write_to_fat", list(gs), s_)
+        except Raised as e:
+            env.fail(key + "::raises:none", ("C08", "C13"))
+            return
+        A = buf.arr
+        for j in range(k - 1):
+            env.ensure(key + "::post:link", mk(z3.Select(A, sym._z(db.FAT_OFFSET + gs[j])) == sym._z(gs[j + 1])), ("C08",))
+        env.ensure(key + "::post:terminator", mk(z3.Select(A, sym._z(db.FAT_OFFSET + gs[-1])) == sym._z(0xC0 + s_)), ("C08",))
+        cond = lambda q: Implies(And(*[q != db.FAT_OFFSET + g for g in gs]), mk(z3.Select(A, sym._z(q)) == z3.Select(A0, sym._z(q))))
+        prove_forall(env, cur(), key + "::post:frame", Forall("frame", 0, N, cond), [], ("C08",))
+
+    def s_dir(self, env, cell, F):
+        nl, el = cell["nl"], cell["el"]
+        d, buf, A0 = self._disk(env, F)
+        name = env.text([env.hole_char("nm%d" % j, [(33, 126)]) for j in range(nl)]) if nl else ""
+        ext = env.text([env.hole_char("ex%d" % j, [(33, 126)]) for j in range(el)]) if el else ""
+        ftype = env.hole_int("type", 0, 3)
+        dtype = env.hole_choice("dtype", [0, 0xFF])
+        slot = env.hole_int("slot", 0, 71)
+        g = env.hole_int("first", 0, 67)
+        lb = env.hole_int("lastbytes", 0, 256)
+        f = F.coco_file(name, ftype, dtype, 0, 0, [], extension=ext)
+        key = KEY + "write_dir_entry"
+        try:
+            F.method(d, "write_dir_entry", slot, f, g, lb)
+        except Raised as e:
+            env.fail(key + "::raises:none", ("C08", "C13"))
+            return
+        A = buf.arr
+        base = db.DIR_OFFSET + 32 * slot
+        from pyvc import strmodel
+
+        def upper_codes(s, width):
+            cs = SStr.of(s).chars[:width] if not isinstance(s, str) else [ord(c) for c in s[:width]]
+            out = []
+            for c in cs:
+                if isinstance(c, int):
+                    out.append(ord(chr(c).upper()))
+                else:
+                    out.append(mk(z3.If(z3.And(c.code >= 97, c.code <= 122), c.code - 32, c.code)))
+            return out + [0x20] * (width - len(out))
+        want = upper_codes(name, 8) + upper_codes(ext, 3) + [ftype, dtype, g, sym.floordiv(lb, 256) if isinstance(lb, SymInt) else lb // 256,
+                                                            lb % 256] + [0] * 16
+        ok = True
+        for j, w in enumerate(want):
+            ok = ok & mk(z3.Select(A, sym._z(base + j)) == sym._z(w))
+        env.ensure(key + "::post:layout", ok, ("C08", "C07"))
+        cond = lambda q: Implies(Or(q < base, q >= base + 32), mk(z3.Select(A, sym._z(q)) == z3.Select(A0, sym._z(q))))
+        prove_forall(env, cur(), key + "::post:frame", Forall("frame", 0, N, cond), [], ("C08",))
+
+    def _amble(self, env, F, cls):
+        o = F.new(DSK, cls)
+        vals = {}
+        if cls in ("MLPreamble", "BasicPreamble"):
+            vals["len"] = env.hole_int("dlen", 0, 65535)
+            F.set(o, "data_length", F.numeric(vals["len"]))
+        if cls == "MLPreamble":
+            vals["load"] = env.hole_int("load", 0, 65535)
+            F.set(o, "load_addr", F.numeric(vals["load"]))
+        if cls == "Postamble":
+            vals["exec"] = env.hole_int("exec", 0, 65535)
+            F.set(o, "exec_addr", F.numeric(vals["exec"]))
+        return o, vals
+
+    def _amble_bytes(self, cls, vals):
+        hi = lambda v: sym.floordiv(v, 256) if isinstance(v, SymInt) else v // 256
+        if cls == "MLPreamble":
+            return [0x00, hi(vals["len"]), vals["len"] % 256, hi(vals["load"]), vals["load"] % 256]
+        if cls == "BasicPreamble":
+            return [0xFF, hi(vals["len"]), vals["len"] % 256]
+        return [0xFF, 0x00, 0x00, hi(vals["exec"]), vals["exec"] % 256]
+
+    def s_amble_write(self, env, cell, F):
+        cls = cell["cls"]
+        A0 = z3.Array("A0", z3.IntSort(), z3.IntSort())
+        buf = ArrList(A0, N)
+        o, vals = self._amble(env, F, cls)
+        want = self._amble_bytes(cls, vals)
+        ptr = env.hole_int("ptr", 0, N)
+        key = "cocoasm/virtualfiles/disk.py::%s.write" % cls
+        try:
+            r = F.method(o, "write", buf, ptr)
+        except Raised as e:
+            env.ensure(key + "::raises:only-when-no-room", (e.cls == "VirtualFileValidationError") and bool(ptr + len(want) > N), ("C08", "C13"))
+            return
+        env.ensure(key + "::pre:room", ptr + len(want) <= N, ("C08",))
+        env.ensure(key + "::post:returns-end", r == ptr + len(want), ("C08", "C07"))
+        A = buf.arr
+        ok = True
+        for j, w in enumerate(want):
+            ok = ok & mk(z3.Select(A, sym._z(ptr + j)) == sym._z(w))
+        env.ensure(key + "::post:layout", ok, ("C08", "C07"))
+        cond = lambda q: Implies(Or(q < ptr, q >= ptr + len(want)), mk(z3.Select(A, sym._z(q)) == z3.Select(A0, sym._z(q))))
+        prove_forall(env, cur(), key + "::post:frame", Forall("frame", 0, N, cond), [], ("C08",))
+
+    def s_amble_read(self, env, cell, F):
+        cls = cell["cls"]
+        A0 = z3.Array("A0", z3.IntSort(), z3.IntSort())
+        buf = ArrList(A0, N)
+        o = F.new(DSK, cls)
+        ptr = env.hole_int("ptr", 0, N)
+        ln = 3 if cls == "BasicPreamble" else 5
+        bs = []
+        for j in range(ln):
+            b = env.hole_int("b%d" % j, 0, 255)
+            env.assume(mk(z3.Select(A0, sym._z(ptr + j)) == sym._z(b)))
+            bs.append(b)
+        key = "cocoasm/virtualfiles/disk.py::%s.read" % cls
+        flag_ok = (bs[0] == 0x00) if cls == "MLPreamble" else ((bs[0] == 0xFF) if cls == "BasicPreamble" else
+                                                              ((bs[0] == 0xFF) & (bs[1] == 0) & (bs[2] == 0)))
+        try:
+            r = F.method(o, "read", buf, ptr)
+        except Raised as e:
+            env.ensure(key + "::raises:only-malformed-or-short", (e.cls == "VirtualFileValidationError") and
+                       bool(sym.Or(ptr + ln > N, sym.Not(flag_ok))), ("C07", "C13"))
+            return
+        env.ensure(key + "::post:accepts-only-wellformed", sym.And(ptr + ln <= N, flag_ok), ("C07",))
+        env.ensure(key + "::post:returns-end", r == ptr + ln, ("C07",))
+        if cls in ("MLPreamble", "BasicPreamble"):
+            env.ensure(key + "::post:data-length", F.intval(F.get(o, "data_length")) == bs[1] * 256 + bs[2], ("C07",))
+        if cls == "MLPreamble":
+            env.ensure(key + "::post:load", F.intval(F.get(o, "load_addr")) == bs[3] * 256 + bs[4], ("C07",))
+        if cls == "Postamble":
+            env.ensure(key + "::post:exec", F.intval(F.get(o, "exec_addr")) == bs[3] * 256 + bs[4], ("C07",))
+        env.ensure(key + "::post:buffer-unchanged", buf.arr.eq(A0), ("C07", "C08"))
+
+
+LEMMAS.append(DiskWriterFns())
